@@ -106,7 +106,7 @@ def _trace_key(variant, tr, k, reason):
 def part_traces(ctx, rng):
     quick = ctx.tier == "quick"
     n_multi = 150 if quick else 1500
-    n_interp = 50 if quick else 500
+    n_interp = 150 if quick else 1200
     traces = []
     crashed = 0
     for j in range(n_multi):
@@ -138,15 +138,16 @@ def part_traces(ctx, rng):
     n_thin = sum(any(e["a"] == "Thin" for e in t["ev"]) for t in traces)
     n_raise_user = sum(1 for t in traces if t["hasB"] and any(e["a"] == "Batch" and e["hasBin"] and Fraction(*e["local"]) != Fraction(*e["bin"]) for e in t["ev"]))
     ctx.part("traces_multi", model_drift=sum(S.drift_of(t, "multi") for t in traces), recorded=len(traces), accepted=acc, rejected=len(rej), with_thinning=n_thin, user_bound_raised=n_raise_user, exact_random_numbers=sum(1 for t in traces if t["exact"]))
-    if n_thin == 0 or n_raise_user == 0:
+    if (n_thin == 0 or n_raise_user == 0) and not ctx.violations:
         raise tlc.MachineryError("trace driver never reached thinning / raising of a user bound")
     ctx.count(len(traces), distinct_key="traces_multi")
     total = acc
 
     itraces = []
     for j in range(n_interp):
-        rec = S.ARRecorder(rng, 3 if j % 2 else 4, UNUMS, controlled=True, weight_probs=None)
-        N = int(rng.integers(1, 6))
+        mw = 3 if j % 2 else 4
+        rec = S.ARRecorder(rng, mw, UNUMS, controlled=True, weight_probs=[0.1] + [0.9 / mw] * mw)  # few zero weights
+        N = int(rng.integers(2, 8))
         try:
             tr, ids = rec.interp(N)
         except tlc.MachineryError:
@@ -164,7 +165,7 @@ def part_traces(ctx, rng):
         ctx.violation(_trace_key("interp", tr, k, reason), {"trace": tr, "first_unmatched_record": k, "reason": reason})
     n_thin_i = sum(any(e["a"] == "Thin" for e in t["ev"]) for t in itraces)
     ctx.part("traces_interp", model_drift=sum(S.drift_of(t, "interp") for t in itraces), recorded=len(itraces), accepted=acc, rejected=len(rej), with_thinning=n_thin_i)
-    if n_thin_i == 0:
+    if n_thin_i == 0 and not ctx.violations:
         raise tlc.MachineryError("interp trace driver never reached thinning")
     ctx.count(len(itraces), distinct_key="traces_interp")
     total += acc
